@@ -22,6 +22,8 @@ SEMANTIC = [
     r"index out of bounds",
     r"possible out of bounds",
     r"recursive call .* decreases",
+    r"unable to prove post-condition of closure",
+    r"closure .*precondition",
 ]
 SEM_RE = re.compile("|".join(SEMANTIC))
 UNDECIDED_RE = re.compile(r"Resource limit|rlimit|timed out|while lifetime checking|not supported|unsupported", re.I)
@@ -66,8 +68,12 @@ class Undecided(Exception):
     pass
 
 
-def vx_gen(unit, repo, out_rs, out_map, vacuity=None, generated=None):
+def vx_gen(unit, repo, out_rs, out_map, vacuity=None, generated=None, features=None, drop_beyond=False):
     cmd = [VX, "gen", "--repo", repo, "--unit", unit["_dir"], "--out", out_rs, "--map", out_map]
+    if drop_beyond:
+        cmd += ["--drop-beyond"]
+    if features is not None:
+        cmd += ["--features", ",".join(features)]
     if vacuity:
         cmd += ["--vacuity", vacuity]
     if generated:
@@ -161,9 +167,21 @@ def classify(mp, gen_text, diags):
         if host_fn is None and clause_fn is not None:
             host_fn = clause_fn
         if host_fn is None:
-            # failure inside the prelude (a lemma of the unit itself): not about /repo code
-            undecided.append("prelude obligation failed: " + msg + " @ " + ",".join(str(s[0]) for s in spans[:3]))
-            continue
+            # failure inside the prelude: a lemma of the unit (protocol lemma / lemma over extracted constants).
+            # It is an obligation of the unit like any other; the baseline guard in main() turns it into
+            # "undecided" when nothing extracted from /repo changed.
+            pl = prim[0][0] if prim else (spans[0][0] if spans else 0)
+            name, lprops = "prelude", []
+            for k in range(min(pl, len(gen_lines)) - 1, -1, -1):
+                m = re.search(r"\bfn\s+([A-Za-z0-9_]+)", gen_lines[k])
+                if m:
+                    name = "prelude::" + m.group(1)
+                    for kk in range(k - 1, max(k - 4, -1), -1):
+                        mm = re.match(r"\s*// @props (.*)", gen_lines[kk])
+                        if mm:
+                            lprops = mm.group(1).split()
+                    break
+            host_fn = dict(key=name, repo_file="(unit prelude)", repo_line=pl, props=lprops)
         failures.append(dict(
             function=host_fn["key"], repo_file=host_fn["repo_file"], repo_line=host_fn["repo_line"],
             props=host_fn.get("props") or [],
@@ -192,17 +210,18 @@ def generated_dir_for(unit, repo, work):
     return prost_out_dir(repo, work)
 
 
-def run_verus_unit(unit, repo, work, seed, tier, rlimit=30):
+def run_verus_unit(unit, repo, work, seed, tier, features=None, tag="", rlimit=30):
     """returns dict with map, failures, undecided, stats"""
-    wd = unit_workdir(work, unit)
+    wd = unit_workdir(work, unit) + tag
+    os.makedirs(wd, exist_ok=True)
     rs = os.path.join(wd, unit["name"] + ".rs")
     mpf = os.path.join(wd, unit["name"] + ".map.json")
-    res = dict(unit=unit["name"], failures=[], undecided=[], vacuity=[], wall=0.0, smt_ms=0, verified_items=0,
+    res = dict(unit=unit["name"], tag=tag, features=features, failures=[], undecided=[], vacuity=[], wall=0.0, smt_ms=0, verified_items=0,
                checker_cmd="", fn_breakdown=[], map=None)
     t0 = time.time()
     try:
         gen_dir = generated_dir_for(unit, repo, work)
-        mp = vx_gen(unit, repo, rs, mpf, generated=gen_dir)
+        mp = vx_gen(unit, repo, rs, mpf, generated=gen_dir, features=features)
     except Undecided as e:
         res["undecided"].append(str(e))
         return res
@@ -211,6 +230,23 @@ def run_verus_unit(unit, repo, work, seed, tier, rlimit=30):
     res["checker_cmd"] = cmd
     gen_text = open(rs).read()
     fails, und = classify(mp, gen_text, diags)
+    res["beyond_notes"] = []
+    if fails and not und and all(f["strength"] == "beyond-property" for f in fails):
+        # only clauses stronger than the property (exactness) failed.  Callers were verified against the full
+        # contract, so re-verify the whole unit with those clauses removed: sound, and decides the property itself.
+        res["beyond_notes"] = [f"clause {f['function']}/{f['clause']} (stronger than the property) no longer holds; unit re-verified without beyond-property clauses" for f in fails]
+        try:
+            mp = vx_gen(unit, repo, rs, mpf, generated=gen_dir, features=features, drop_beyond=True)
+        except Undecided as e:
+            res["undecided"].append(str(e))
+            return res
+        res["map"] = mp
+        res["dropped_beyond"] = True
+        rc, summary, diags, raw, wall, cmd = run_verus(rs, seed, rlimit)
+        gen_text = open(rs).read()
+        fails, und = classify(mp, gen_text, diags)
+    for sf in mp.get("shape_failures", []):
+        und = und + [sf + " (A-rust: drop order cannot be seen by the verifier)"] if not fails else und
     res["failures"], res["undecided"] = fails, und
     vr = summary.get("verification-results", {})
     res["verified_items"] = vr.get("verified", 0)
@@ -240,7 +276,7 @@ def run_verus_unit(unit, repo, work, seed, tier, rlimit=30):
         trs = os.path.join(wd, f"vac_{safe}.rs")
         tmp = os.path.join(wd, f"vac_{safe}.map.json")
         try:
-            tmap = vx_gen(unit, repo, trs, tmp, vacuity=key, generated=gen_dir)
+            tmap = vx_gen(unit, repo, trs, tmp, vacuity=key, generated=gen_dir, features=features, drop_beyond=res.get("dropped_beyond", False))
         except Undecided as e:
             return key, "undecided", str(e)
         fn = [f for f in tmap["functions"] if f["key"] == key][0]
@@ -338,7 +374,11 @@ def main(argv):
         verus_units = [u for u in my_units if u.get("backend", "verus") in ("verus", "both")]
         kani_units = [u for u in my_units if u.get("backend", "verus") in ("kani", "both")]
         with cf.ThreadPoolExecutor(max_workers=4) as ex:
-            futs = [ex.submit(run_verus_unit, u, args.repo, work, seed, args.tier) for u in verus_units]
+            futs = []
+            for u in verus_units:
+                fsets = u.get("feature_sets") or [None]
+                for i, fs in enumerate(fsets):
+                    futs.append(ex.submit(run_verus_unit, u, args.repo, work, seed, args.tier, fs, f"@{i}" if len(fsets) > 1 else ""))
             kfut = None
             if kani_units:
                 import kani_runner
@@ -353,36 +393,43 @@ def main(argv):
     # ---------------------------------------------------------------- decide
     known = load_known()
     violations, undecided, notes, known_hits = [], [], [], []
-    n_clauses = n_fns = n_vac = 0
+    n_clauses = n_fns = n_vac = n_lemmas = 0
     fn_under_contract, trusted, samples, rules_fired = [], [], [], {}
     smt_ms = 0
     for r in results:
         u = units[r["unit"]]
         for m in r["undecided"]:
             undecided.append(f"[{r['unit']}] {m}")
+        for m in r.get("beyond_notes", []):
+            notes.append(f"[{r['unit']}{r['tag']}] {m}")
         mp = r["map"]
         if not mp:
             continue
         smt_ms += r["smt_ms"]
-        if args.rebaseline:
-            json.dump(current_hashes(u, mp), open(os.path.join(u["_dir"], "baseline.json"), "w"), indent=1, sort_keys=True)
-        base = baseline_of(u)
+        bkey = "set" + (r["tag"] or "@0")
         cur = current_hashes(u, mp)
+        if args.rebaseline:
+            b = baseline_of(u) or {}
+            b[bkey] = cur
+            json.dump(b, open(os.path.join(u["_dir"], "baseline.json"), "w"), indent=1, sort_keys=True)
+        base = (baseline_of(u) or {}).get(bkey)
         unchanged = base is not None and base == cur
         for f in mp["functions"]:
             fprops = f.get("props") or u["serves"]
             if prop not in fprops:
                 continue
             if f["has_contract"]:
-                n_fns += 1
+                n_fns += 1 if not r["tag"] or r["tag"] == "@0" or not any(x["function"] == f["key"] and x["unit"] == r["unit"] for x in fn_under_contract) else 0
                 n_clauses += len(f["clauses"]) + 1  # +1: body safety obligations (overflow, callee preconditions, termination)
-                fn_under_contract.append(dict(unit=r["unit"], function=f["key"], repo=f"{f['repo_file']}:{f['repo_line']}",
+                fn_under_contract.append(dict(unit=r["unit"], feature_set=r["features"], function=f["key"], repo=f"{f['repo_file']}:{f['repo_line']}",
                                               token_sha256_96=f["token_hash"], rules=f["rules"], clauses=[c["name"] for c in f["clauses"]],
                                               trusted=f["external_body"]))
                 for c in f["clauses"][:2]:
                     if len(samples) < 12:
                         samples.append(dict(obligation=f"{r['unit']}/{f['key']}/{c['name']}", kind=c["kind"], text=c["text"][:300]))
         n_vac += len([v for v in r["vacuity"] if v["verdict"] == "reachable"])
+        # lemmas of the unit's prelude (protocol lemmas, lemmas over extracted constants) are obligations too
+        n_lemmas += len([fb for fb in r["fn_breakdown"] if fb["mode"] == "proof" and fb["success"]])
         trusted += [f"[{r['unit']}] {a}" for a in mp["assumptions"]]
         for fl in r["failures"]:
             fprops = fl["props"] or u["serves"]
@@ -401,7 +448,8 @@ def main(argv):
             if kh:
                 known_hits.append(kh[0])
                 continue
-            violations.append(fl)
+            if not any(v["function"] == fl["function"] and v.get("clause") == fl.get("clause") and v["message"] == fl["message"] and v["unit"] == fl["unit"] for v in violations):
+                violations.append(fl)
         beyond_only = [fl for fl in r["failures"] if fl.get("_beyond")]
         if beyond_only and not violations:
             undecided.append(f"[{r['unit']}] only beyond-property (exactness) clauses failed: the property clauses of those functions are still proved, but callers assumed the full contract -> undecided, not a violation")
@@ -433,7 +481,7 @@ def main(argv):
 
     for k in known_hits:
         log(f"KNOWN-FINDING: property={prop} {k['unit']}/{k['function']}/{k['clause']} {k['what']}")
-    for n in notes:
+    for n in sorted(set(notes)):
         log("NOTE:", n)
 
     # ---------------------------------------------------------------- replays for violations
@@ -462,7 +510,7 @@ def main(argv):
             log("UNDECIDED:", m[:1500])
         exit_code = 2
 
-    obligations = n_clauses + k_oblig
+    obligations = n_clauses + n_lemmas + k_oblig
     discharged = obligations - len(violations) - len(known_hits) if exit_code != 2 else 0
     if exit_code == 0 and obligations == 0:
         log("UNDECIDED: zero obligations generated (vacuity guard)")
@@ -476,7 +524,7 @@ def main(argv):
             trusted_base=sorted(set(trusted)),
             explanation=pconf.get("explanation", ""),
             functions_under_contract=fn_under_contract,
-            named_clauses_plus_body_obligations=n_clauses, kani_checks=k_oblig,
+            named_clauses_plus_body_obligations=n_clauses, prelude_lemmas=n_lemmas, kani_checks=k_oblig,
             verus_items_verified=sum(r.get("verified_items", 0) for r in results),
             vacuity_probes_reachable=n_vac,
             bounded=bounded_notes,
